@@ -1,15 +1,15 @@
 CONSTANTS
-  NArb = 1
+  NArb = 2
   Thr = {t1}
   PreCreated = 1
-  Kinds = {"spawn", "spawn_fn"}
-  TaskStop = FALSE
+  Kinds = {"spawn"}
+  TaskStop = TRUE
   AtomicCalls = TRUE
   EagerJoin = TRUE
-  MaxCmds = 4
-  MaxSys = 1
-  Codes = {0}
-  AllowBusy = TRUE
+  MaxCmds = 3
+  MaxSys = 2
+  Codes = {0, 7}
+  AllowBusy = FALSE
   FifoLocalQueue = TRUE
   StopEndsLoop = TRUE
   FirstCodeKept = TRUE
@@ -29,11 +29,11 @@ CONSTANTS
   CtrlBatch = 0
   StartIdle = FALSE
   EveryExitStops = TRUE
-  RxDropAtLoopEnd = FALSE
+  RxDropAtLoopEnd = TRUE
   DequeueBatch = 0
-  QueueCap = 0
+  QueueCap = 2
 SPECIFICATION Spec
 VIEW View
 SYMMETRY ThrSym
-INVARIANTS TypeOK C10_StartOrderRespectsSendOrder C10_AtMostOnce C10_OnOwnThread C10_NothingAfterStop C10_SpawnFalseWhenGone C10_JoinAfterLoopEnd C10_BlockOnOutput C10_AcceptedStarts
+INVARIANTS C09_FirstCodeWins C09_AllRegisteredStop C09_RunErrOnNonZero C09_EarlyStoppedDeregistered
 CHECK_DEADLOCK FALSE
